@@ -257,11 +257,19 @@ def run_index(case, elems, sigs, recs):
             gnames = coords.field_names(sig)
             rows0 = [stored_row(elems, e, sig) for e in ids]
             cartesian = all(x in ("xy", "z", "t") for x in sig)
-            for dtype in ([numpy.float64, numpy.int64, numpy.float32] if cartesian else [numpy.float64, numpy.float32]):
-              # float32 / int64 columns: the stored values are the dtype's own values
+            for dtype in ([numpy.float64, "reversed-fields", numpy.int64, numpy.float32] if cartesian else [numpy.float64, "reversed-fields", numpy.float32]):
+              # float32 / int64 columns: the stored values are the dtype's own values;
+              # "reversed-fields": a structured dtype that lists the coordinates in another order (fields are found by name)
+              order = None
+              if dtype == "reversed-fields":
+                  dtype, order = numpy.float64, list(reversed(names))
               rows = [[float(numpy.asarray(x, dtype=dtype)) for x in r] for r in rows0]
-              a = vector.array({nm: numpy.array([r[i] for r in rows], dtype=dtype).reshape(sh) for i, nm in enumerate(names)})
-              base = {"op": "index:" + case["kind"], "sig": [sig, None], "tag": "index", "flavor": flavor, "case": case, "dtype": numpy.dtype(dtype).name}
+              if order is None:
+                  a = vector.array({nm: numpy.array([r[i] for r in rows], dtype=dtype).reshape(sh) for i, nm in enumerate(names)})
+              else:
+                  a = vector.array([tuple(r[names.index(nm)] for nm in order) for r in rows], dtype=[(nm, numpy.float64) for nm in order]).reshape(sh)
+              base = {"op": "index:" + case["kind"], "sig": [sig, None], "tag": "index", "flavor": flavor, "case": case,
+                      "dtype": numpy.dtype(dtype).name + ("-reversed-fields" if order else "")}
               kind, arg = case["kind"], case["arg"]
               calls += 1
               try:
@@ -322,7 +330,9 @@ def run_index(case, elems, sigs, recs):
                       recs.append(dict(base, kind="wrong-element", got=[float(e) for e in els], want=want_rows[0]))
                   # the coordinate arrays index to the coordinate objects of that element
                   idx = tuple(arg) if len(arg) > 1 else arg[0]
-                  for gname in ["azimuthal"] + (["longitudinal"] if n > 2 else []) + (["temporal"] if n > 3 else []):
+                  # (canonical field order only: the coordinate arrays take their elements by position - an observation
+                  # outside the property, which speaks of vector arrays; see DESIGN.md 13.3)
+                  for gname in ([] if order else ["azimuthal"] + (["longitudinal"] if n > 2 else []) + (["temporal"] if n > 3 else [])):
                       calls += 1
                       try:
                           cobj, want_c = getattr(a, gname)[idx], getattr(out, gname)
@@ -334,7 +344,7 @@ def run_index(case, elems, sigs, recs):
               if kind == "asarray":
                   if type(out) is not numpy.ndarray:
                       recs.append(dict(base, kind="asarray-not-plain", got=type(out).__name__))
-                  if out.dtype.names != tuple(gnames):
+                  if (out.dtype.names != tuple(gnames)) if order is None else (sorted(out.dtype.names or ()) != sorted(gnames)):
                       recs.append(dict(base, kind="wrong-fields", got=list(out.dtype.names or ()), want=gnames))
                       continue
               else:
@@ -627,6 +637,23 @@ def run_layout(case, elems, sigs, recs):
                     ro, oo = r.scale(3.0), o.scale(3.0)
                     if not isinstance(ro, vector.Vector) or not close_vec(vec_cart(ro), vec_cart(oo), mpf(10) ** -12 * 100):
                         recs.append(dict(base, kind="record-method-differs-from-object", got=repr(ro)[:100]))
+                    # class links of the record classes: flavor and dimension of what a record turns into
+                    for mname, f in (("to_Vector2D", lambda v: v.to_Vector2D()), ("to_Vector3D", lambda v: v.to_Vector3D()),
+                                     ("to_Vector4D", lambda v: v.to_Vector4D()), ("to_xy", lambda v: v.to_xy()), ("unit", lambda v: v.unit()),
+                                     ("to_rhophieta", lambda v: v.to_rhophieta()), ("to_xyzt", lambda v: v.to_xyzt()),
+                                     ("add-object", lambda v: v.add(single)), ("rotateZ", lambda v: v.rotateZ(0.5)),
+                                     ("add-momentum-object", lambda v: v.add(vector.obj(**{("p" + k if k in "xyz" else "E"): 1.0 for k in ["x", "y", "z", "t"][:n]})))):
+                        calls += 1
+                        try:
+                            ro, oo = f(r), f(o)
+                        except Exception as ex:
+                            recs.append(dict(base, kind="exception", method=mname, error=f"{type(ex).__name__}: {ex}"[:200]))
+                            continue
+                        if not isinstance(ro, vector.Vector) or isinstance(ro, vector.Momentum) != isinstance(oo, vector.Momentum) or vector.dim(ro) != vector.dim(oo) \
+                                or tuple(coords.sig_of(ro)) != tuple(coords.sig_of(oo)):
+                            recs.append(dict(base, kind="record-result-class-differs-from-object", method=mname, got=type(ro).__name__, want=type(oo).__name__))
+                        elif not close_vec(vec_cart(ro), vec_cart(oo), mpf(10) ** -12 * 100):
+                            recs.append(dict(base, kind="record-method-differs-from-object", method=mname, got=repr(ro)[:100]))
     return calls
 
 
